@@ -13,7 +13,7 @@ RULE = ('cases = seeded random sequences of 1..60 frames over a protocol-aware a
         'classic TP identifiers; to the stack\'s address, a foreign address and 255; from an ordinary peer, a third node, the stack\'s own address, 254 '
         'and 255; every defined control byte plus random ones; sessions 0..15; size/packet/sequence/window fields from boundary sets and random; data '
         'lengths 0..8 (0..64 FD); gaps 0..3.1 s) put on the bus by a scripted node (seen by two real stacks) or fed straight into ecu.notify / the '
-        'listener of the stack under test, interleaved with the stack\'s own send_pgn calls; oracle after the sequence: job threads alive, never '
+        'listener of the stack under test, interleaved with the stack\'s own send_pgn calls; in half of the cases delivery latency is zero with probability 0.5/1 (a frame is handled while the sender is still inside its send call) and the scripted node additionally answers transport frames of the real stacks at once with an abort / CTS / end-of-message / data frame aimed at the same session; oracle after the sequence: job threads alive, never '
         'span, parked with a positive time-out; after 3.3 s of quiet all session tables empty / FD pools full; a probe timer fires on time; one '
         'well-formed transfer in each direction is delivered intact; non-trivial = >=1 frame reached a transport handler of a stack; distinct = '
         'layer + set of (frame class, control) fed + own sends')
@@ -21,7 +21,8 @@ ASSUMPTIONS = ['exceptions returned to the caller of ecu.notify are counted, nev
                '(<= 5 packets) so that every session is due to be released within the quiet period']
 MIN_OBS = {'frames_fed': {'quick': 100000, 'thorough': 2000000}, 'exceptions_contained': {'quick': 1000, 'thorough': 20000},
            'sessions_opened': {'quick': 2500, 'thorough': 50000}, 'followups_ok': {'quick': 8000, 'thorough': 150000},
-           'probe_timers_ok': {'quick': 8000, 'thorough': 150000}}
+           'probe_timers_ok': {'quick': 8000, 'thorough': 150000}, 'reactive_frames': {'quick': 3000, 'thorough': 60000},
+           'zero_latency_cases': {'quick': 1500, 'thorough': 30000}}
 
 SELF, PEER, THIRD = 0x10, 0x20, 0x30
 
@@ -84,11 +85,59 @@ def gen_frame(rng, fd):
     return can_id, data, label
 
 
+class Reactive(ScriptNode):
+    """hostile node that, besides its scripted frames, answers transport frames of the real stacks at once with a frame aimed at the very
+    session they belong to (abort / CTS / end-of-message / data); with zero latency the answer is handled while the sender is still inside
+    its send call - the moment a receive thread really gets to run"""
+
+    def __init__(self, bus, name, rng, fd, p):
+        super().__init__(bus, name)
+        self.rng, self.fd, self.p = rng, fd, p
+        self.reactions = 0
+        self.depth = 0
+
+    def on_frame(self, fr):
+        if not self.p or self.depth or fr.src == self.name or not fr.ext or self.rng.random() >= self.p:
+            return
+        f = C.split_id(fr.can_id)
+        rng = self.rng
+        d = fr.data
+        sa, da = f['sa'], f['ps']
+        if da == 255:
+            da = rng.choice([PEER, SELF, 255])
+        out = None
+        if not self.fd and f['pf'] in (C.PF_TP_CM, C.PF_TP_DT) and len(d) == 8:
+            pgn = C.un_le(d[5:8]) if f['pf'] == C.PF_TP_CM else rng.choice([0xD000, 0xFEF6])
+            kind = rng.choice(['abort', 'abort', 'cts', 'cts0', 'eom', 'dt', 'rts'])
+            data = {'abort': C.tpcm_abort(rng.choice([1, 2, 3]), pgn), 'cts': C.tpcm_cts(rng.choice([1, 2, 255]), rng.choice([1, 2, 3, 255]), pgn),
+                    'cts0': C.tpcm_cts(0, 255, pgn), 'eom': C.tpcm_eom(rng.choice([9, 20, 30]), rng.choice([2, 3, 5]), pgn),
+                    'dt': C.tp_dt(rng.choice([1, 2, 3]), b'zzzzzzz'), 'rts': C.tpcm_rts(rng.choice([9, 20]), 255, pgn)}[kind]
+            out = (C.make_id(7, 0, C.PF_TP_DT if kind == 'dt' else C.PF_TP_CM, sa, da), data)
+        elif self.fd and f['pf'] in (C.PF_FD_TP_CM, C.PF_FD_TP_DT) and len(d) >= 4:
+            ses = d[0] >> 4
+            pgn = C.un_le(d[9:12]) if (f['pf'] == C.PF_FD_TP_CM and len(d) >= 12) else 0xD000
+            kind = rng.choice(['abort', 'abort', 'cts', 'cts0', 'eoma', 'eoms', 'dt', 'rts'])
+            data = {'abort': C.fdcm_abort(ses, 2, pgn), 'cts': C.fdcm_cts(ses, rng.choice([1, 2, 3, 4, 5]), rng.choice([1, 2, 255]), pgn),
+                    'cts0': C.fdcm_cts(ses, 1, 0, pgn), 'eoma': C.fdcm_eoma(ses, rng.choice([61, 150, 240]), pgn),
+                    'eoms': C.fdcm_eoms(ses, rng.choice([61, 150, 240]), pgn), 'dt': C.fd_dt(ses, rng.choice([1, 2, 3]), bytes(60)),
+                    'rts': C.fdcm_rts(ses, rng.choice([61, 150]), 255, pgn)}[kind]
+            out = (C.make_id(7, 0, C.PF_FD_TP_DT if kind == 'dt' else C.PF_FD_TP_CM, sa, da), data)
+        if out is not None:
+            self.reactions += 1
+            self.depth += 1
+            try:
+                self.send(out[0], out[1], fd=self.fd)
+            finally:
+                self.depth -= 1
+
+
 def run_case(case):
     rng = random.Random(case['seed'])
     layer = case['layer']
     fd = layer == 'j1939-22'
-    W = World(case['seed'], layer, (0.0001, 0.002))
+    zero = rng.choice([0.0, 0.0, 0.5, 1.0])
+    react = rng.choice([0.0, 0.0, 0.3, 0.7])
+    W = World(case['seed'], layer, (0.0001, 0.002), zero)
     sim = W.sim
     viol = M.Violations()
     wa, wb = rng.choice([1, 2, 255]), rng.choice([1, 2, 255])
@@ -98,7 +147,7 @@ def run_case(case):
     cb = W.ca(B, PEER, identity_number=2)
     W.listen_ca(ca, 'A')
     W.listen_ca(cb, 'B')
-    H = ScriptNode(W.bus, 'H')
+    H = Reactive(W.bus, 'H', rng, fd, react)
     W.run(0.01)
     t = 0.02
     L = rng.randint(1, 60)
@@ -142,6 +191,7 @@ def run_case(case):
                 own.append((kind, who, rec['ret'], rec['exc']))
             sim.at(t + rng.choice([0, 0.0001, 0.003, 0.01]), snd)
     W.run(t + 0.05)
+    H.p = 0.0            # the hostile node falls silent; what follows must work
     sessions_opened = 0
     for nd in (A, B):
         tb = nd.tables()
@@ -149,7 +199,7 @@ def run_case(case):
     t_quiet = sim.now
     W.run(t_quiet + 3.3)
 
-    obs = dict(frames_fed=fed[0], exceptions_contained=sum(A.notify_exc.values()) + sum(B.notify_exc.values()), sessions_opened=sessions_opened,
+    obs = dict(reactive_frames=H.reactions, zero_latency_cases=1 if zero else 0, frames_fed=fed[0], exceptions_contained=sum(A.notify_exc.values()) + sum(B.notify_exc.values()), sessions_opened=sessions_opened,
                followups_ok=0, probe_timers_ok=0, own_sends=len(own), own_send_raised=sum(1 for o in own if o[3]))
     # ---- oracle ---------------------------------------------------------------------------
     M.m_live(viol, W, layer)
@@ -183,7 +233,7 @@ def run_case(case):
             else:
                 obs['followups_ok'] += 1
         M.m_live(viol, W, layer)
-    sig = repr((layer, tuple(sorted(labels)), tuple(sorted(set(o[0] for o in own)))))
+    sig = repr((layer, tuple(sorted(labels)), tuple(sorted(set(o[0] for o in own))), zero > 0, react > 0))
     sample = dict(case=dict(seed=case['seed'], layer=layer), frames=L, classes=dict(labels), own_sends=own[:6], contained_exceptions=dict(A.notify_exc),
                   exception_samples=A.notify_exc_samples[:3], sessions_open_at_end_of_sequence=sessions_opened)
     res = dict(violations=list(viol), inconclusive=None, sig=sig, nontrivial=A.rx_frames + fed[0] > 0, obs=obs, sample=sample)
